@@ -1,6 +1,7 @@
 """C16: contracts on the real planArc / computeArcCenterOffsets, plus the end-to-end consequence."""
 import collections
 import math
+import random
 
 from .base import Monitor
 from ..harness import Core, Wrapped, depth_in, digest
@@ -31,6 +32,7 @@ class ArcContract(object):
             y = pos.Y_AXIS.nativeToLogical()
             res = orig(endX, endY, i, j, clockwise)
             me.calls += 1
+            me.last_args = (endX, endY, i, j, bool(clockwise))
             try:
                 me.check(x, y, endX, endY, i, j, clockwise, res)
             except Exception as exc:  # noqa: B902
@@ -146,6 +148,9 @@ class C16(Monitor):
                     sweep = None      # full circle
                 elif kind < 0.2:
                     sweep = rnd.choice([1e-3, TWO_PI - 1e-3, math.pi, math.pi / 2, rnd.uniform(1e-3, 0.05)])
+                elif kind < 0.25:
+                    # end point within 1e-9 .. 1e-6 (relative) of the start point, but not equal: a minute arc, not a full circle
+                    sweep = rnd.choice([3e-9, 1e-8, 1e-7, 1e-6, 1e-5])
                 else:
                     sweep = rnd.uniform(1e-3, TWO_PI - 1e-3)
                 items.append(dict(t="plan", inch=inch, sx=sx, sy=sy, r=r, a0=a0, sweep=sweep, cw=rnd.random() < 0.5,
@@ -255,13 +260,43 @@ class C16(Monitor):
         nc = con.calls
         if it["text"]:
             # through the real handler, with plain-decimal text (end point then lies on the circle only to 1e-6)
-            cmd = "%s X%s Y%s I%s J%s" % ("G2" if it["cw"] else "G3", plain(ex, 7), plain(ey, 7), plain(i, 7), plain(j, 7))
+            words = ["X" + plain(ex, 7), "Y" + plain(ey, 7), "I" + plain(i, 7), "J" + plain(j, 7)]
+            want = tuple(float(w[1:]) for w in words) + (bool(it["cw"]),)
+            # any legal spelling of the same words (seeded from the item, so a replay reproduces it)
+            srnd = random.Random(digest(it))
+            sp = []
+            for w in words:
+                t = w[1:]
+                q = srnd.random()
+                if q < 0.15 and t.lstrip("-").startswith("0.") and len(t.lstrip("-")) > 2:
+                    t = t.replace("0.", ".", 1)               # -.75 / .5
+                elif q < 0.25 and not t.startswith("-"):
+                    t = "+" + t
+                elif q < 0.3 and "." not in t:
+                    t = t + "."
+                elif q < 0.35:
+                    t = ("-00" + t[1:]) if t.startswith("-") else ("00" + t)
+                sp.append((w[0].lower() if srnd.random() < 0.15 else w[0]) + t)
+            srnd.shuffle(sp)
+            sep = srnd.choice([" ", " ", " ", "", "\t", "  "])
+            code = "G2" if it["cw"] else "G3"
+            cmd = srnd.choice([code, code, code, "G0" + code[1], code.lower()]) + (sep if sep or srnd.random() < 0.5 else " ") + sep.join(sp)
             try:
                 core.gcode(cmd)
             except Exception as exc:  # noqa: B902
                 v.append(dict(kind="exception", idx=-1, cmd=cmd, detail=repr(exc), mechanism=None))
                 return
             stats["planarc_via_handler"] += 1
+            if con.calls == nc:
+                if math.hypot(want[0] - x, want[1] - y) > 1e-3:
+                    v.append(dict(kind="arc-not-planned", idx=-1, cmd=cmd, detail="the handler did not plan the arc %r from (%r, %r) at all"
+                                  % (cmd, x, y), mechanism=None))
+                return
+            got = con.last_args
+            if got[4] != want[4] or any(abs(a - b) > 1e-9 * max(1.0, abs(b)) for a, b in zip(got[:4], want[:4])):
+                v.append(dict(kind="handler-planned-a-different-arc", idx=-1, cmd=cmd, mechanism=None,
+                              detail="%r from (%r, %r): planArc was given %r, the words say %r" % (cmd, x, y, got, want)))
+                return
         else:
             self.last_plan = (core, (ex, ey, i, j, it["cw"]), (x, y))
             try:
